@@ -4,6 +4,7 @@ import (
 	"fmt"
 	"go/token"
 	"go/types"
+	"sort"
 	"strings"
 
 	"golang.org/x/tools/go/ssa"
@@ -194,6 +195,126 @@ func runCrypto(c *Ctx, r *Reporter) {
 	hE, oE := headerLayout(enc)
 	hD, oD := headerLayout(dec)
 	r.Check(hE > 0 && hE == hD && oE == oD && oE >= 0, "learn.hybrid#header-agreement", p.Rel(enc.Pos()), fmt.Sprintf("both sides use a %d-byte header with the length field at offset %d", hE, oE), fmt.Sprintf("header layout differs: encrypt (header %d, length at %d) vs decrypt (header %d, length at %d)", hE, oE, hD, oD))
+	// 4b. the length field holds the length of the very RSA ciphertext that follows the header
+	{
+		okLen, why := false, "no binary.BigEndian.PutUint16 of a length found in hybridEncrypt"
+		for _, b := range enc.Blocks {
+			for _, ins := range b.Instrs {
+				call, ok := ins.(*ssa.Call)
+				if !ok || !(call.Call.IsInvoke() && call.Call.Method.Name() == "PutUint16") && !(call.Call.StaticCallee() != nil && call.Call.StaticCallee().Name() == "PutUint16") {
+					continue
+				}
+				v := call.Call.Args[len(call.Call.Args)-1]
+				if cv, ok := v.(*ssa.Convert); ok {
+					v = cv.X
+				}
+				okLen, why = false, "the length field is "+v.String()+", not len() of the RSA-OAEP ciphertext"
+				if of, isLen := isLenOf(v); isLen {
+					if ex, ok := of.(*ssa.Extract); ok {
+						if c2, ok := ex.Tuple.(*ssa.Call); ok && c2.Call.StaticCallee() != nil && pkgFuncName(c2.Call.StaticCallee()) == "crypto/rsa.EncryptOAEP" {
+							// and that same value is what is appended after the header
+							appended := false
+							for _, ref := range *ex.Referrers() {
+								if c3, ok := ref.(*ssa.Call); ok {
+									if bi, ok := c3.Call.Value.(*ssa.Builtin); ok && bi.Name() == "append" {
+										appended = true
+									}
+								}
+							}
+							if appended {
+								okLen, why = true, ""
+							} else {
+								why = "the RSA ciphertext whose length is written is not the one appended after the header"
+							}
+						}
+					}
+				}
+			}
+		}
+		r.Check(okLen, "learn.hybridEncrypt#length-field-is-len-of-rsa-ciphertext", p.Rel(enc.Pos()), "the header's length field is len() of the RSA-OAEP ciphertext that is appended after it",
+			why+": hybridDecrypt splits the envelope at that length, so a value computed any other way (key size arithmetic) makes matching keys fail for some key sizes")
+	}
+	// 5b. no run-time package state on the verification path: what a question verifies to must not depend on which
+	// questions were handled before it in the same process
+	{
+		var roots []*ssa.Function
+		for _, name := range []string{"(*QuestionModel).Verify", "(*QuestionModel).Seal", "(*QuestionModel).Unseal", "(*QuestionModel).ExportAnswerKey"} {
+			if fn := get(name); fn != nil {
+				roots = append(roots, fn)
+			}
+		}
+		// the models are built (and their renderers run) before they are verified: every exported constructor counts
+		for _, fd := range Funcs(pkg) {
+			if fd.Obj.Exported() && strings.HasPrefix(fd.Obj.Name(), "New") {
+				if sf := p.SSAFunc(fd.Obj); sf != nil {
+					roots = append(roots, sf)
+				}
+			}
+		}
+		seen := map[*ssa.Function]bool{}
+		work := append([]*ssa.Function{}, roots...)
+		var reach []*ssa.Function
+		for len(work) > 0 {
+			fn := work[len(work)-1]
+			work = work[:len(work)-1]
+			if fn == nil || seen[fn] || fn.Pkg == nil || fn.Pkg.Pkg != pkg.Types {
+				continue
+			}
+			seen[fn] = true
+			reach = append(reach, fn)
+			for _, b := range fn.Blocks {
+				for _, ins := range b.Instrs {
+					if ci, ok := ins.(ssa.CallInstruction); ok {
+						if sc := ci.Common().StaticCallee(); sc != nil {
+							work = append(work, sc)
+						} else if ci.Common().IsInvoke() {
+							// interface methods implemented in this package (Renderer …)
+							for _, fd := range Funcs(pkg) {
+								if fd.Obj.Name() == ci.Common().Method.Name() {
+									work = append(work, p.SSAFunc(fd.Obj))
+								}
+							}
+						}
+					}
+					if mc, ok := ins.(*ssa.MakeClosure); ok {
+						if cf, ok := mc.Fn.(*ssa.Function); ok {
+							work = append(work, cf)
+						}
+					}
+				}
+			}
+			work = append(work, fn.AnonFuncs...)
+		}
+		sort.Slice(reach, func(i, j int) bool { return q(reach[i]) < q(reach[j]) })
+		bad := ""
+		for _, fn := range reach {
+			for _, b := range fn.Blocks {
+				for _, ins := range b.Instrs {
+					switch x := ins.(type) {
+					case *ssa.Store:
+						if g := rootGlobal(x.Addr, 4); g != nil && g.Pkg == fn.Pkg {
+							bad = q(fn) + " writes the package-level variable " + g.Name() + " (" + p.Rel(instrPos(x)) + ")"
+						}
+					case *ssa.MapUpdate:
+						if g := rootGlobal(x.Map, 4); g != nil && g.Pkg == fn.Pkg {
+							bad = q(fn) + " updates the package-level map " + g.Name() + " (" + p.Rel(instrPos(x)) + ")"
+						}
+					case *ssa.Call:
+						// a method with a pointer receiver on a package-level variable (sync.Map.Store, sync.Once.Do, …)
+						if sc := x.Call.StaticCallee(); sc != nil && sc.Signature.Recv() != nil && len(x.Call.Args) > 0 {
+							if g, isG := x.Call.Args[0].(*ssa.Global); isG && g.Pkg == fn.Pkg {
+								if _, ptr := sc.Signature.Recv().Type().(*types.Pointer); ptr && sc.Pkg != nil && sc.Pkg.Pkg != pkg.Types {
+									bad = q(fn) + " calls " + sc.Name() + " on the package-level variable " + g.Name() + " (" + p.Rel(instrPos(x)) + ")"
+								}
+							}
+						}
+					}
+				}
+			}
+		}
+		r.Check(bad == "", "learn.verification-path#no-package-state", p.Rel(roots[0].Pos()), fmt.Sprintf("none of the %d functions reachable from the model constructors and Verify/Seal/Unseal/ExportAnswerKey writes package-level state", len(reach)),
+			bad+": a cached or memoised value shared between questions makes the verdict for one question depend on the questions handled before it")
+	}
 	// 5. no package state in the crypto path
 	for _, name := range []string{"Encrypt", "Decrypt", "hybridEncrypt", "hybridDecrypt", "parsePublicKey", "parsePrivateKey"} {
 		fn := get(name)
@@ -267,6 +388,31 @@ func runCrypto(c *Ctx, r *Reporter) {
 			}
 		}
 		r.Check(okV, q(fn)+"#both-conditions", p.Rel(fn.Pos()), "a question is accepted exactly when marked choices match and unmarked ones do not", why)
+		// every accepting return comes after the loop over all outputs: it is the nil constant and both tests dominate... the loop exit
+		if okV {
+			accept := ""
+			for _, ret := range returnsOf(fn) {
+				for _, rv := range resultValues(ret, len(ret.Results)-1) {
+					if k, isConst := rv.(*ssa.Const); isConst && k.IsNil() {
+						// reached only through the loop: the block of the != test (loop body) reaches it, and the loop header dominates it
+						if !neq.Block().Dominates(ret.Block()) && !reachesBlock(neq.Block(), ret.Block()) {
+							accept = "a `return nil` that does not follow the loop over the outputs"
+						}
+						// and no path from the entry reaches it without passing the loop header (the range test)
+						if loopHeaderOf(neq.Block()) == nil || !loopHeaderOf(neq.Block()).Dominates(ret.Block()) {
+							accept = "a `return nil` that is reachable without entering the loop over the outputs"
+						}
+						continue
+					}
+					if onlyNonNil(rv) {
+						continue
+					}
+					accept = "a return of " + rv.String() + " (an acceptance decided outside the loop over all outputs)"
+				}
+			}
+			r.Check(accept == "", q(fn)+"#accepts-only-after-all-outputs", p.Rel(fn.Pos()), "every accepting return follows the loop that tests every output against the marked set",
+				"verifyChoiceMatch has "+accept+": some kinds of question are then accepted without every choice having been compared with the question's output")
+		}
 	}
 	// 7. match verification decided by isMatchQuestion
 	if fn := get("(*QuestionModel).getVerifiedAnswer"); fn != nil {
@@ -385,6 +531,60 @@ func guardedByLookup(bo *ssa.BinOp, want bool) bool {
 		if edgeDominates(idom, edge, bo.Block()) {
 			return true
 		}
+	}
+	return false
+}
+
+// rootGlobal returns the package-level variable at the root of an address expression, or nil.
+func rootGlobal(v ssa.Value, depth int) *ssa.Global {
+	for i := 0; i < depth; i++ {
+		switch x := v.(type) {
+		case *ssa.Global:
+			return x
+		case *ssa.FieldAddr:
+			v = x.X
+		case *ssa.IndexAddr:
+			v = x.X
+		case *ssa.UnOp:
+			v = x.X
+		default:
+			return nil
+		}
+	}
+	return nil
+}
+
+// loopHeaderOf returns the header of the innermost natural loop containing b, or nil.
+func loopHeaderOf(b *ssa.BasicBlock) *ssa.BasicBlock {
+	var best *ssa.BasicBlock
+	size := 0
+	for _, h := range b.Parent().Blocks {
+		if body := naturalLoop(h); body != nil && body[b] && (best == nil || len(body) < size) {
+			best, size = h, len(body)
+		}
+	}
+	return best
+}
+
+// onlyNonNil: v is an error value that cannot be nil (fmt.Errorf, errors.New, a wrapped error constructor).
+func onlyNonNil(v ssa.Value) bool {
+	switch x := v.(type) {
+	case *ssa.Call:
+		if sc := x.Call.StaticCallee(); sc != nil {
+			switch pkgFuncName(sc) {
+			case "fmt.Errorf", "errors.New", "errors.Join":
+				return true
+			}
+		}
+	case *ssa.MakeInterface:
+		return true
+	case *ssa.Phi:
+		for _, e := range x.Edges {
+			if !onlyNonNil(e) {
+				return false
+			}
+		}
+		return true
 	}
 	return false
 }
